@@ -8,6 +8,7 @@ import (
 	"os/exec"
 	"path/filepath"
 	"sort"
+	"strconv"
 	"strings"
 	"sync"
 	"testing"
@@ -98,7 +99,9 @@ var c17Numbers = []string{"-1", "0", "1", "4294967295", "4294967296", "900719925
 	"2147483648", "1180591620717411303424",
 	// values whose float64 rounding crosses a bound or the integer test
 	"4294967295.00000001", "4294967294.99999999", "9223372036854775807.5", "0.99999999999999999", "1.0000000000000000001", "-0.00000000000000000001",
-	"9223372036854775806", "-9223372036854775807", "4294967295.0", "4294967296.0", "1e2", "1E+2", "12e-1"}
+	"9223372036854775806", "-9223372036854775807", "4294967295.0", "4294967296.0", "1e2", "1E+2", "12e-1",
+	// valid JSON numbers that float64 cannot hold at all
+	"1e400", "-1E+999", "1e-400", "1" + strings.Repeat("0", 320), "-" + strings.Repeat("9", 310) + ".5"}
 
 func c17Replacement(t *rapid.T, label string, old any) any {
 	switch rapid.IntRange(0, 9).Draw(t, label+"kind") {
@@ -398,7 +401,18 @@ func c17Labels(c c17Doc, info map[string]bool) (labels []string, nontrivial bool
 	if big {
 		labels = append(labels, "integer-beyond-2^53")
 	}
-	nontrivial = big || (len(c.Mutations) == 1 && !info["model-valid"]) || (len(c.Mutations) == 0 && info["model-valid"])
+	outside := false
+	walkTree(c.Doc, nil, func(p treePath, v any) {
+		if n, ok := v.(json.Number); ok {
+			if f, err := strconv.ParseFloat(n.String(), 64); err != nil || (f == 0 && strings.Trim(n.String(), "-0.eE+") != "") {
+				outside = true
+			}
+		}
+	})
+	if outside {
+		labels = append(labels, "number-outside-float64")
+	}
+	nontrivial = big || outside || (len(c.Mutations) == 1 && !info["model-valid"]) || (len(c.Mutations) == 0 && info["model-valid"])
 	sort.Strings(labels)
 	return labels, nontrivial
 }
